@@ -24,6 +24,7 @@ def mkflow(ix, site, local_types=None, which=0, tab=None, env=None,
         conv.tab.scalars = [Conv(conv.tab, {}, canon).parse(x) if isinstance(x, str) else x for x in scalars]
     conv.tab.ret_len = _ret_len(ix)
     conv.tab.records = _records(ix)
+    conv.tab.signatures = _signatures(ix)
     fl = Flow(f, conv)
     fl.conv.erase_broadcast = erase_broadcast
     fl.conv.forward_attrs = forward_attrs
@@ -675,6 +676,19 @@ def merged_store(fl, stores):
     return val
 
 
+def call_atom(fl, name, args, kw):
+    """the atom Conv.call builds for name(*args, **kw): keyword arguments that continue the positional ones of a function
+    of the analysed tree are positional (see Conv.call)"""
+    args = list(args)
+    kd = dict(kw)
+    sg = fl.tab.signatures(name) if getattr(fl.tab, 'signatures', None) is not None else None
+    if sg is not None:
+        while len(args) < len(sg) and sg[len(args)] in kd:
+            args.append(kd.pop(sg[len(args)]))
+    ks = sorted(kd)
+    return fl.tab.atom('call', tuple(args + [kd[k] for k in ks]), extra=('fn:' + name,) + tuple(ks))
+
+
 def unmut(fl, rf):
     """the container behind a `mutated(...)` marker (a list that was appended to in a helper and handed back)"""
     a = atom_of(fl, rf)
@@ -705,6 +719,41 @@ def has_guard(rf):
 
 
 _RET_LEN = {}
+
+
+_SIGS = {}
+
+
+def _signatures(ix):
+    """name -> parameter names (without self / cls) when every function or method of that name in the analysed tree
+    declares exactly the same positional parameters and none takes *args / **kwargs / keyword-only parameters"""
+    key = id(ix)
+    if key not in _SIGS:
+        seen = {}
+        for m in ix.modules.values():
+            for name, f in m.functions.items():
+                seen.setdefault(name, []).append((f, False))
+            for c in m.classes.values():
+                for name, lst in c.methods.items():
+                    for f in lst:
+                        seen.setdefault(name, []).append((f, 'staticmethod' not in f.decorators()))
+        table = {}
+        for name, fs in seen.items():
+            if name in _LIBRARY_METHODS or name.startswith('__'):
+                continue
+            sigs = set()
+            for f, bound in fs:
+                a = f.node.args
+                if a.vararg or a.kwarg or a.kwonlyargs or a.posonlyargs:
+                    sigs.add(None)
+                    continue
+                ps = [x.arg for x in a.args]
+                sigs.add(tuple(ps[1:] if bound and ps else ps))
+            if len(sigs) == 1 and None not in sigs:
+                table[name] = list(sigs.pop())
+        _SIGS.clear()
+        _SIGS[key] = table
+    return lambda name: _SIGS[key].get(name.rsplit('.', 1)[-1] if isinstance(name, str) else name)
 
 
 _RECORDS = {}
